@@ -528,9 +528,24 @@ def canonize(f, inline=True):
     written, loopvars, rangevars, lamparams, order = set(), [], [], [], []
 
     def target_id(n):
+        """the variable a write to this lvalue modifies: a.x, a[i], (*a-as-aggregate) all modify a"""
         n = strip(n)
-        while isinstance(n, dict) and n.get("k") in ("Paren",):
-            n = strip(n.get("e"))
+        for _ in range(20):
+            if not isinstance(n, dict):
+                return None
+            k = n.get("k")
+            if k == "Paren":
+                n = strip(n.get("e"))
+            elif k == "Member" and not n.get("arrow"):
+                n = strip(n.get("base"))
+            elif k == "Subscript":
+                n = strip(n.get("base"))
+            elif k == "Call" and n.get("op") == "[]" and n.get("args"):
+                n = strip(n["args"][0])
+            elif k == "Call" and n.get("member_call") and n.get("obj") is not None and n["callee"]["name"].split("::")[-1] in ("operator[]", "at", "front", "back"):
+                n = strip(n["obj"])
+            else:
+                break
         return n.get("id") if isinstance(n, dict) and n.get("k") == "DeclRef" else None
 
     def mark(t, p):
@@ -665,3 +680,82 @@ def canonize(f, inline=True):
     g["canon_names"] = names
     g["canon_single"] = single
     return g
+
+
+# ---------------------------------------------------------------------------------------------
+# templates over canonical keys: {A} binds a written local (%k), {a} a lambda parameter (&k), consistently over one rule
+import re
+
+
+def tmpl(t):
+    out, i = "", 0
+    for m in re.finditer(r"\{([A-Za-z])\}", t):
+        out += re.escape(t[i:m.start()])
+        out += "(?P<%s_%d>%s\\d+)" % (m.group(1), m.start(), "%" if m.group(1).isupper() else "&")
+        i = m.end()
+    return re.compile(out + re.escape(t[i:]) + r"\Z")
+
+
+def bind(keys, templates, env=None):
+    """every template matches some key, with one consistent binding of the placeholders; returns the binding or None"""
+    env = dict(env or {})
+
+    def rec(i, env):
+        if i == len(templates):
+            return env
+        rx = tmpl(templates[i])
+        for k in keys:
+            m = rx.match(k)
+            if not m:
+                continue
+            e2, ok = dict(env), True
+            for g, v in m.groupdict().items():
+                nm = g.split("_")[0]
+                if e2.get(nm, v) != v or (nm not in e2 and v in e2.values()):
+                    ok = False
+                    break
+                e2[nm] = v
+            if ok:
+                r = rec(i + 1, e2)
+                if r is not None:
+                    return r
+        return None
+    return rec(0, env)
+
+
+def fill_in(t, env):
+    return re.sub(r"\{([A-Za-z])\}", lambda m: env.get(m.group(1), m.group(0)), t)
+
+
+def effects(body):
+    """keys of all state-changing expressions (assignments, compound assignments, ++/--, operator= / += calls), in source order"""
+    out = []
+    for x, p in find(body, lambda x: x.get("k") in ("Assign", "CompoundAssign") or (x.get("k") == "Unary" and x.get("op") in ("++", "--")) or
+                       (x.get("k") == "Call" and x.get("op") in ("=", "+=", "-=", "*=", "/=", "++", "--"))):
+        out.append((x.get("line") or 0, len(out), key(x), x, p))
+    out.sort(key=lambda t: (t[0], t[1]))
+    return [(k, x, p) for _, _, k, x, p in out]
+
+
+def decls_of(body):
+    return {dd["name"]: dd.get("init") for x, _ in find(body, lambda x: x.get("k") == "Decl") for dd in x["decls"] if dd.get("name")}
+
+
+def loops_of(body):
+    ls = [x for x, _ in find(body, lambda x: x.get("k") in ("For", "ForRange", "While", "Do"))]
+    return sorted(ls, key=lambda x: x.get("line") or 0)
+
+
+def for_shape(lp):
+    init = strip(lp.get("init"))
+    iv = init["decls"][0]["name"] if init is not None and init.get("k") == "Decl" and init.get("decls") else None
+    i0 = key(init["decls"][0].get("init")) if iv else None
+    return iv, i0, key(lp.get("cond")), key(lp.get("inc"))
+
+
+def counts_up(lp, bound):
+    """for (#k = 0; #k < bound; ++#k) in any spelling of the increment"""
+    iv, i0, cond, inc = for_shape(lp)
+    return iv is not None and i0 == "0" and cond == "(%s < %s)" % (iv, bound) and inc in ("(++%s)" % iv, "(%s++)" % iv, "(%s += 1)" % iv)
+
+
